@@ -1,6 +1,8 @@
 \* trace validation, Layer P only (fallback when Layer M cannot be evaluated)
 CONSTANTS
-  Skip = {}
+  \* "ctx_state_check": the pinned code lacks that check (fixes/C02-1.patch); lib/prop_C02.py writes the
+  \* cfg it uses from the known-findings status, this file is the stand-alone form for the pinned tree
+  Skip = {"ctx_state_check"}
   CheckM = FALSE
 SPECIFICATION TSpec
 POSTCONDITION Consumed
